@@ -1,6 +1,7 @@
 """C03 - the response does not depend on completion order (structural clauses)."""
 from __future__ import annotations
 
+from rules import generic_rules as G
 from rules import exec_rules as X
 from rules import identity
 from sa.loader import Repo
@@ -34,6 +35,11 @@ def run(check: Check, repo: Repo, tier: str) -> None:
     X.key_order(check, repo)
     em = repo.package_modules('execution')
     X.zip_align(check, repo, em)
+    G.loop_counter(check, [f for m in em for f in m.functions()])
+    check.floor("LOOP-COUNTER", 2, "manually indexed completion loops")
+    G.zip_filter(check, em)
+    G.arg_name_match(check, repo, [f for m in em for f in m.functions()])
+    check.floor("ARG-NAME-MATCH", 100, "resolved calls with >= 2 named positional arguments in execution/")
     X.handler_nulls(check, repo, em)
     X.await_guard(check, repo, em)
     X.cancel_settle(check, repo, [repo.mod('pyutils.gather_with_cancel')], floor=1)
